@@ -44,3 +44,62 @@ def run_csr(m, clause):
                   '(stored %d values, dense has %d nonzeros, sum %s vs %s)' % (nvals, int((dense != 0).sum()), dense.sum(), values.sum()))
         else:
             print('REPLAY: not reproduced (well-formed input accepted)')
+
+
+def valid_coo(nvals, rowidx, nrows, colidx, ncols):
+    n = len(rowidx)
+    if nvals != n or len(colidx) != n:
+        return False
+    if any(rowidx < 0) or any(rowidx >= nrows) or any(rowidx[1:] < rowidx[:-1]):
+        return False
+    if any(colidx < 0) or any(colidx >= ncols):
+        return False
+    return not any(rowidx[k] == rowidx[k + 1] and colidx[k] >= colidx[k + 1] for k in range(n - 1))
+
+
+def _coo_case(values, rowidx, nrows, colidx, ncols):
+    """None if the real assemble_coo treats this input as the property demands, else a description."""
+    from nutils import matrix
+    ok = valid_coo(len(values), rowidx, nrows, colidx, ncols)
+    with matrix.backend('numpy'):
+        try:
+            A = matrix.assemble_coo(values, rowidx, nrows, colidx, ncols)
+        except (matrix.MatrixError, ValueError) as e:
+            return 'valid COO data rejected with %s: %s' % (type(e).__name__, e) if ok else None
+        except Exception as e:
+            return 'raised %s: %s' % (type(e).__name__, e)
+        if not ok:
+            return 'COO data that do not define a matrix unambiguously were accepted'
+        dense = A.export('dense')
+        want = numpy.zeros((nrows, ncols))
+        want[rowidx, colidx] = values
+        if dense.shape != want.shape or (dense != want).any():
+            return 'assembled matrix %s differs from the dense matrix of the input %s' % (dense.tolist(), want.tolist())
+    return None
+
+
+def run_coo(m, clause):
+    import itertools
+    n = int(m.get('len(rowidx)', 0) or 0)
+    nc = int(m.get('len(colidx)', 0) or 0)
+    nv = int(m.get('len(values)', 0) or 0)
+    nrows, ncols = int(m.get('nrows', 0) or 0), int(m.get('ncols', 0) or 0)
+    if max(n, nc, nv) <= 12 and 0 <= nrows <= 30 and 0 <= ncols <= 30:
+        rowidx, colidx = vec(m, 'rowidx'), vec(m, 'colidx')
+        values = numpy.arange(1, nv + 1, dtype=float)
+        bad = _coo_case(values, rowidx, nrows, colidx, ncols)
+        print('model input: assemble_coo(values=%s, rowidx=%s, nrows=%d, colidx=%s, ncols=%d): %s' % (values.tolist(), rowidx.tolist(), nrows, colidx.tolist(), ncols, bad or 'as specified'))
+        if bad:
+            print('REPLAY: VIOLATION-CONFIRMED assemble_coo: ' + bad)
+            return
+    for nrows, ncols in ((1, 2), (2, 1), (2, 3), (3, 2)):
+        for n in range(0, 4):
+            for rowidx in itertools.product(range(-1, nrows + 1), repeat=n):
+                for colidx in itertools.product(range(-1, ncols + 1), repeat=n):
+                    values = numpy.arange(1, n + 1, dtype=float)
+                    bad = _coo_case(values, numpy.array(rowidx, dtype=int), nrows, numpy.array(colidx, dtype=int), ncols)
+                    if bad:
+                        print('search (clause %s): assemble_coo(values=%s, rowidx=%s, nrows=%d, colidx=%s, ncols=%d)' % (clause, values.tolist(), list(rowidx), nrows, list(colidx), ncols))
+                        print('REPLAY: VIOLATION-CONFIRMED assemble_coo: ' + bad)
+                        return
+    print('REPLAY: not reproduced (model input and all COO inputs with <= 3 entries on <= 3x2 shapes behave as specified)')
